@@ -1,6 +1,6 @@
 (** Property C09 — the theorems the check counts as obligations.  Nothing but
     statements closed by [exact] and [Print Assumptions]. *)
-From HS Require Import Base.Prelude C09.Model C09.Resource C09.Sync.
+From HS Require Import Base.Prelude C09.Model C09.Resource C09.Sync C09.Limits C09.Pool.
 From Coq Require Import Sorting.Sorted.
 Local Open Scope Z_scope.
 
@@ -178,3 +178,54 @@ Theorem c09_rwlock_no_overtaking : forall mx ops c now, max_ok mx -> rw_legit_ru
   rw_waiters s = [].
 Proof. exact rwlock_no_overtaking. Qed.
 Print Assumptions c09_rwlock_no_overtaking.
+
+(* ------------------------------------------------------------------ *)
+(** * Concurrency limiters *)
+
+Theorem c09_limiter_static_bound : forall k limit ops, k <> KDynamic -> 1 <= limit ->
+  let s := c_run (c_init k limit 1 None) ops in c_limit s = limit /\ 0 <= c_active s <= limit.
+Proof. exact limiter_static_bound. Qed.
+Print Assumptions c09_limiter_static_bound.
+
+(** DynamicConcurrency: PARTIAL bound — relative to the limit in force (a
+    scale-down below [active] is not an over-admission). *)
+Theorem c09_limiter_dynamic_partial : forall limit mn mx ops, 1 <= mn -> mn <= limit ->
+  match mx with None => True | Some m => mn <= m /\ limit <= m end ->
+  let s := c_run (c_init KDynamic limit mn mx) ops in
+  mn <= c_limit s /\ match mx with None => True | Some m => c_limit s <= m end /\ 0 <= c_active s /\
+  (existsb is_setlimit ops = false -> c_limit s = limit /\ c_active s <= limit).
+Proof. exact limiter_dynamic. Qed.
+Print Assumptions c09_limiter_dynamic_partial.
+
+Theorem c09_limiter_dynamic_acquire : forall s w, c_kind s = KDynamic ->
+  snd (c_step s (CAcquire w)) = CTrue -> c_active (fst (c_step s (CAcquire w))) <= c_limit s.
+Proof. exact limiter_dynamic_acquire. Qed.
+Print Assumptions c09_limiter_dynamic_acquire.
+
+(* ------------------------------------------------------------------ *)
+(** * ConnectionPool (after the repair: the slot is counted before the set-up delay) *)
+
+Theorem c09_pool_bound : forall mx mn polls ops, 0 <= mx ->
+  let s := p_run (p_init mx mn polls) ops in
+  Z.of_nat (length (p_active s)) <= mx /\ p_total s <= mx /\
+  p_total s = Z.of_nat (length (p_idle s)) + Z.of_nat (length (p_active s)) + Z.of_nat (length (p_creating s)) /\
+  NoDup (map fst (p_idle s) ++ p_active s) /\
+  (p_waiters s <> [] -> p_idle s = [] /\ p_total s = mx).
+Proof. exact pool_bound. Qed.
+Print Assumptions c09_pool_bound.
+
+Theorem c09_pool_fifo_handoff : forall s c conn now wid w rest, zmem conn (p_active s) = true ->
+  p_waiters s = (wid, w) :: rest ->
+  snd (p_step s (PRelease c conn now)) = PHandoff w /\
+  p_waiters (fst (p_step s (PRelease c conn now))) = rest /\
+  p_granted (fst (p_step s (PRelease c conn now))) = p_granted s ++ [(w, conn)] /\
+  In conn (p_active (fst (p_step s (PRelease c conn now)))).
+Proof. exact pool_fifo_handoff. Qed.
+Print Assumptions c09_pool_fifo_handoff.
+
+(** PARTIAL for "as soon as": the hand-off happens in the release step, but the
+    queued client notices it only at its next poll tick. *)
+Theorem c09_pool_grant_seen_at_next_poll_partial : forall s c k conn, assoc_find c (p_ticks s) = Some k ->
+  assoc_find c (p_granted s) = Some conn -> snd (p_step s (PPoll c)) = PGot conn.
+Proof. exact pool_poll_sees_grant. Qed.
+Print Assumptions c09_pool_grant_seen_at_next_poll_partial.
